@@ -29,7 +29,8 @@ class Gen:
         self.vars = []          # visible variables, innermost last: (id, kind, width)
         self.next_var = 0
         self.next_tmp = 0
-        self.stats = dict(depth=0, chain=0, inner_decl=0, dyn=0, nested_path=0, shadow=0, xconst=0, stmts=0, else_if_space=0)
+        self.pending = []       # index variables used in a dynamic access: re-assign them later
+        self.stats = dict(depth=0, chain=0, inner_decl=0, dyn=0, nested_path=0, shadow=0, xconst=0, stmts=0, else_if_space=0, var_index=0, index_reassigned=0, dyn_read=0)
 
     def visible(self):
         """variables by C++ name lookup: an inner redeclaration hides the outer one"""
@@ -47,6 +48,30 @@ class Gen:
             return "".join(r.choice("01x") for _ in range(w))
         return "".join(r.choice("01") for _ in range(w))
 
+    def idxexpr(self, iw):
+        """index of a dynamic access: preferably a mutable declared variable (re-assigned later)"""
+        r = self.rng
+        cands = [vid for (vid, k, vw) in self.visible() if k == "u" and vw == iw]
+        if cands and r.random() < 0.6:
+            vid = r.choice(cands)
+            self.pending.append(vid); self.stats["var_index"] += 1
+            return "s %d" % vid
+        return self.uexpr(iw, 1)
+
+    def dynread_u(self, w):
+        """UInt of width w read through a dynamic slice / part, or None"""
+        r = self.rng
+        bases = [("in %d" % i, pw) for i, (k, pw) in enumerate(self.pins) if k == "u" and pw >= w]
+        bases += [("s %d" % vid, vw) for (vid, k, vw) in self.visible() if k == "u" and vw >= w]
+        if not bases:
+            return None
+        e, pw = r.choice(bases)
+        self.stats["dyn_read"] += 1
+        if pw % w == 0 and pw // w <= 4 and r.random() < 0.4:
+            return "dpart %d %d %s %s" % (pw // w, pw, e, self.idxexpr(r.choice([1, 2])))
+        iw = r.choice([1, 2, 3])
+        return "dsl %d %d %s %s" % (iw, w, e, self.idxexpr(iw))
+
     def uexpr(self, w, d):
         r = self.rng
         opts = []
@@ -62,7 +87,10 @@ class Gen:
                 e, ww = r.choice(wide)
                 return "sl %s %d %d" % (e, r.randint(0, ww - w), w)
             return "cu " + self.const(w)
-        op = r.choice(["not", "and", "or", "xor", "add", "add", "sl"])
+        op = r.choice(["not", "and", "or", "xor", "add", "add", "sl", "dyn"])
+        if op == "dyn":
+            e = self.dynread_u(w) if w <= 8 else None
+            return e if e else self.uexpr(w, d - 1)
         if op == "not":
             return "not " + self.uexpr(w, d - 1)
         if op == "sl":
@@ -83,9 +111,13 @@ class Gen:
             c2 = r.random()
             if srcs and c2 < 0.5:
                 return r.choice(srcs)
-            if uw and c2 < 0.92:
+            if uw and c2 < 0.80:
                 e, w = r.choice(uw)
                 return "bit %s %d" % (e, r.randrange(w))
+            if uw and c2 < 0.92:
+                e, w = r.choice(uw)
+                iw = r.choice([1, 2, 3]); self.stats["dyn_read"] += 1
+                return "dbit %d %d %s %s" % (iw, w, e, self.idxexpr(iw))
             return "cb " + ("x" if r.random() < 0.05 else r.choice("01"))
         if c < 0.65 and uw:
             # comparison with a constant / another expression: the typical IF condition
@@ -123,17 +155,17 @@ class Gen:
                     sels.append("st %d %d" % (off, ww)); w = ww
                 else:
                     i = r.choice(iw); ww = r.randint(1, min(w, 4))
-                    sels.append("ds %d %d %s" % (i, ww, self.uexpr(i, 1))); w = ww
+                    sels.append("ds %d %d %s" % (i, ww, self.idxexpr(i))); w = ww
                     self.stats["dyn"] += 1
             elif c < 0.87:
                 i = r.choice([1, 2, 3])
-                sels.append("db %d %d %s" % (i, w, self.uexpr(i, 1)))
+                sels.append("db %d %d %s" % (i, w, self.idxexpr(i)))
                 self.stats["dyn"] += 1
                 return sels, "b", 1
             else:
                 parts = r.choice([p for p in (1, 2, 3, 4) if w % p == 0])   # BitWidth division requires divisibility
                 i = r.choice([1, 2])
-                sels.append("dp %d %d %s" % (parts, w, self.uexpr(i, 1))); w = w // parts
+                sels.append("dp %d %d %s" % (parts, w, self.idxexpr(i))); w = w // parts
                 self.stats["dyn"] += 1
             if w < 1:
                 break
@@ -151,7 +183,7 @@ class Gen:
         if r.random() < 0.25:
             k, w = "b", 1; e = self.bexpr(2)
         else:
-            k = "u"; w = r.choice([1, 2, 3, 4, 4, 5, 6, 8, 8, 8, 11, 12, 16]); e = self.uexpr(w, 2)
+            k = "u"; w = r.choice([1, 2, 2, 3, 3, 4, 4, 5, 6, 8, 8, 8, 11, 12, 16]); e = self.uexpr(w, 2)
         self.vars.append((vid, k, w))
         if depth > 0:
             self.stats["inner_decl"] += 1
@@ -168,6 +200,22 @@ class Gen:
         rhs = self.bexpr(1) if rk == "b" else self.uexpr(rw, 1)
         return ["A", "A %d %d %s %s" % (vid, len(sels), " ".join(sels), rhs)]
 
+    def reassign_index(self):
+        """assign an index variable again AFTER it was used in a dynamic access (often from itself)"""
+        r = self.rng
+        vid = self.pending.pop(r.randrange(len(self.pending)))
+        vis = [v for v in self.visible() if v[0] == vid and v[1] == "u"]
+        if not vis:
+            return None
+        w = vis[0][2]
+        c = r.random()
+        if c < 0.35: e = "add s %d cu %s" % (vid, "0" * (w - 1) + "1")
+        elif c < 0.5: e = "not s %d" % vid
+        elif c < 0.65: e = "xor s %d cu %s" % (vid, self.const(w))
+        else: e = self.uexpr(w, 1)
+        self.stats["index_reassigned"] += 1
+        return ["A", "A %d 0 %s" % (vid, e)]
+
     def read(self):
         vid = self.rng.choice(self.visible())[0]
         t = self.next_tmp; self.next_tmp += 1
@@ -181,6 +229,11 @@ class Gen:
             self.budget -= 1
             self.stats["stmts"] += 1
             r = self.rng.random()
+            if self.pending and self.rng.random() < 0.3:
+                ra = self.reassign_index()
+                if ra:
+                    out.append(ra)
+                    continue
             if not self.vars or r < 0.12:
                 out.append(self.decl(depth))
             elif r < 0.52:
@@ -481,13 +534,15 @@ def uses_ok(toks, stack):
     return True
 
 
-def shrink(harness, driver, pins, body, vec, category, deadline):
+def shrink(harness, driver, pins, body, vec, category, deadline, etag=None):
+    """greedy statement removal; for exception categories the failed assertion must stay the same
+    (removing a shadowing declaration can make a program ill-typed, which is a different failure)"""
     def failing(b):
         lines = ser(b, [])
         if not closed(lines):
             return False
         res, errs = run_all(harness, driver, [("s", prog_text("s", pins, lines, [vec]))], "shrink", timeout=120)
-        return any(c == category for c, _ in compare_case(res, "s", "0"))
+        return any(c == category and (etag is None or exception_tag(str(d)) == etag) for c, d in compare_case(res, "s", "0"))
     cur = body
     progress = True
     while progress and time.time() < deadline:
@@ -626,7 +681,7 @@ def main():
 
     progs = load_corpus()
     asts = {}
-    gstats = dict(inner_decl=0, dyn=0, nested_path=0, shadow=0, xconst=0, else_if_space=0)
+    gstats = dict(inner_decl=0, dyn=0, nested_path=0, shadow=0, xconst=0, else_if_space=0, var_index=0, index_reassigned=0, dyn_read=0)
     for i in range(nprog):
         budget = rng.choice([6, 10, 14, 20, 28] if quick else [8, 14, 22, 32, 45])
         g = Gen(rng, rng.randint(1, max_depth), rng.choice([1, 2, max_chain]), budget)
@@ -773,10 +828,11 @@ def main():
             lines = None
             pins, body, vecs = prog_pieces(progd[pid])
             if time.time() < deadline and len(groups) < 12:
-                sb = shrink(harness, driver, pins, parse_body(body), vecs[int(k)], cat, min(deadline, time.time() + 20))
+                etag = exception_tag(str(det)) if cat in ("postprocess-exception", "impl-exception") else None
+                sb = shrink(harness, driver, pins, parse_body(body), vecs[int(k)], cat, min(deadline, time.time() + 20), etag)
                 cand = prog_text(pid, pins, ser(sb, []), [vecs[int(k)]])
                 r2, _ = run_all(harness, driver, [(pid, cand)], "shrunk", timeout=120)
-                dets = [d for c, d in compare_case(r2, pid, "0") if c == cat]
+                dets = [d for c, d in compare_case(r2, pid, "0") if c == cat and (etag is None or exception_tag(str(d)) == etag)]
                 if dets:
                     lines, det, k = cand, dets[0], 0
             ftag = exception_tag(det) if cat in ("postprocess-exception", "impl-exception") else feature_tag(lines or progd[pid])
